@@ -12,7 +12,7 @@
 (*   new -auth ok-> up -(client close | refused report)-> closing -handler      *)
 (*   returns-> gone.                                                            *)
 (* Mutant switches (non-vacuity): ClearAtomic, LogAtomic, KickConsume,          *)
-(* OfflineOnVeto, OnlineFloor.                                                  *)
+(* OfflineOnVeto, CloseOnLateVeto, OnlineFloor.                                 *)
 EXTENDS Prop_C15, TLC, Json
 
 CONSTANTS NU,            \* users 1..NU
@@ -27,6 +27,8 @@ CONSTANTS NU,            \* users 1..NU
           LogAtomic,     \* FALSE: counter read and written in two critical sections
           KickConsume,   \* FALSE: a kick entry is not deleted when it refuses a report
           OfflineOnVeto, \* FALSE: no offline report when the connection was closed by a refused report
+          CloseOnLateVeto, \* FALSE: a report refused after its stream's relay was already torn down (the other
+                         \* direction ended first, with an error) does not close the connection
           OnlineFloor    \* FALSE: entry kept (and decremented) at <= 0
 
 VARIABLES stats, kick, online,       \* the stats object
@@ -167,15 +169,17 @@ Auth(c, u, ok) ==
 \* one exchange through the proxy: a traffic report (copy.go / server.go:375-394); refused => connection closed
 Traffic(c) ==
   /\ cst[c] = "up" /\ nops < MaxOps
-  /\ LET u == cu[c]
+  /\ \E late \in BOOLEAN :     \* late: the report arrives while the stream is being torn down (copy.go watcher)
+     LET u == cu[c]
          refused == u \in kick
+         closes == refused /\ (~late \/ CloseOnLateVeto)
          o == [NoOp EXCEPT !.op = "log", !.u = u, !.tx = 1, !.rx = 0]
          m1 == MonStep(mon, Ev("ProbeStart", c), 0)
          m2 == Pair(m1, gid, o, [ok |-> ~refused, snap |-> <<>>])
      IN /\ LogEffect(u, <<1, 0>>)
-        /\ cst' = [cst EXCEPT ![c] = IF refused THEN "vetoed" ELSE "up"]
-        /\ mon' = MonStep(m2, [ev |-> "Probe", scn |-> 0, conn |-> c, alive |-> ~refused], 0)
-  /\ hist' = Append(hist, [NoOp EXCEPT !.op = "probe", !.tx = c])
+        /\ cst' = [cst EXCEPT ![c] = IF closes THEN "vetoed" ELSE "up"]
+        /\ mon' = MonStep(m2, [ev |-> "Probe", scn |-> 0, conn |-> c, alive |-> ~closes], 0)
+        /\ hist' = Append(hist, [NoOp EXCEPT !.op = "probe", !.tx = c, !.flag = late])
   /\ nops' = nops + 1 /\ gid' = gid + 1
   /\ UNCHANGED <<online, pc, cur, res, tmp, cu>>
 
